@@ -149,8 +149,9 @@ pub fn run_case(a: &Args, tag: &'static str, idx: u64, acc: &mut Acc) {
     let mut probe_under: Vec<String> = universe.paths.iter().map(|q| format!("{}{}", p, q)).collect();
     probe_under.extend(dec.keys().cloned());
     probe_under.extend(universe.paths.iter().take(12).cloned()); // same names at the underlying root
+    // timestamp setters included: the altroot must answer exactly like the underlying filesystem (outcome only;
+    // the snapshots carry no timestamps)
     let mut domain = Domain::untyped();
-    domain.weights.retain(|w| w.0 != "set_time");
     domain.root_targets = true;
     let mut trace: Vec<String> = vec![];
     let phys0 = phys_outside_state(&b);
